@@ -304,18 +304,6 @@ def Program.refsOk (p : Program) : Bool :=
 /-- every reference resolves to the definition of its own function object (excludes exactly F-C11-1) -/
 def Program.srcOk (p : Program) : Bool := p.build.all fun call => call.refs.all (refOk p.defs)
 
-def refsSrcOk (c : NContent) : Bool :=
-  match toSymbolicRepr [] c with
-  | .ok s => (genProgram s).srcOk
-  | .error _ => false
-
-/-- excludes exactly F-C11-1 (a `__name__` shared by two different derived / reaction functions, where the
-    overwritten one is still referenced) and an emitted definition with a repeated parameter -/
-def refsResolve (c : NContent) : Bool :=
-  match toSymbolicRepr [] c with
-  | .ok s => (genProgram s).refsOk
-  | .error _ => false
-
 /-! ### the same hypothesis on the input alone -/
 
 /-- the functions of derived quantities and reactions with the key their definition is filed under
@@ -352,13 +340,43 @@ def argsNoDup (c : NContent) : Bool := (Use.all c).all fun u => !hasDup u.args
 def Canonical (c : NContent) : Prop :=
   ∀ u ∈ Use.all c, ∀ vs, (c.pyfn u.fid).fn vs = (c.pyfn u.fid).fn (fit u.args.length vs)
 
-/-- `generate_mxlpy_code_from_symbolic_repr`: the program, unless a definition would repeat a parameter name —
-    `sympy_to_python_fn` raises ValueError for that (after `fix: refuse to generate a Python function whose
-    parameter list repeats a name`) -/
+/-- the functions of derived quantities and reactions, in the order the generator visits them -/
+def compFns (s : SymRepr) : List SymFn := s.derived.map (·.2) ++ s.reactions.map (·.2.fn)
+
+/-- the function of a name: its first use with distinct arguments (`_check_function_names`, first loop) -/
+def refFn (fns : List SymFn) (name : String) : Option SymFn :=
+  fns.find? fun g => g.fnName == name && !hasDup g.args
+
+/-- `_check_function_names`, second loop: every use of a name is that name's function applied to the use's arguments.
+    The code compares translated expressions; the model compares the function objects they were translated from
+    (ghost `src`; ASSUMPTION C06: equal functions have equal translations and different functions different ones) -/
+def namesConsistent (s : SymRepr) : Bool :=
+  (compFns s).all fun f => match refFn (compFns s) f.fnName with
+    | some g => g.src == f.src
+    | none => true
+
+/-- `generate_mxlpy_code_from_symbolic_repr`: ValueError when two different functions of derived quantities /
+    reactions have the same name (after `fix: refuse to generate MxlPy source for two different functions with the
+    same name`); else the program, unless a definition would repeat a parameter name — `sympy_to_python_fn` raises
+    ValueError for that (after `fix: refuse to generate a Python function whose parameter list repeats a name`) -/
 def genMxlpy (s : SymRepr) : Except Err Program :=
-  let p := genProgram s
-  if p.defs.all fun kd => !hasDup kd.2.params then pure p
-  else .error (.valueError "an argument is repeated")
+  if !namesConsistent s then .error (.valueError "two different functions have the same name")
+  else
+    let p := genProgram s
+    if p.defs.all fun kd => !hasDup kd.2.params then pure p
+    else .error (.valueError "an argument is repeated")
+
+/-- the names check passes and every reference resolves to the definition of its own function object -/
+def refsSrcOk (c : NContent) : Bool :=
+  match toSymbolicRepr [] c with
+  | .ok s => namesConsistent s && (genProgram s).srcOk
+  | .error _ => false
+
+/-- … and every emitted definition has distinct parameters: generation succeeds and the program rebuilds the model -/
+def refsResolve (c : NContent) : Bool :=
+  match toSymbolicRepr [] c with
+  | .ok s => namesConsistent s && (genProgram s).refsOk
+  | .error _ => false
 
 /-- model → generated source → model -/
 def roundTrip (bad : List String) (c : NContent) : Except Err Content := do
